@@ -6,6 +6,7 @@ import FqeVerif.Model.Maps
 import FqeVerif.Model.Cirq
 import FqeVerif.Model.Sectors
 import FqeVerif.Model.Hamil
+import FqeVerif.Model.Evolve
 namespace Driver
 open Fock Model
 
@@ -163,6 +164,14 @@ def cmd (name : String) : P String := do
       let l ← natList
       let (sorted, swaps) := bubbleDesc (fun (k : Nat) => k) l.length l
       return s!"{swaps} " ++ showNats sorted
+  -- Model: time_evolve route and in-place refusal: `<sparse> <individual> <quadratic> <diagonal> <diagcoulomb>`
+  | "route" => do
+      let a ← nat; let b ← nat; let c ← nat; let d ← nat; let e ← nat
+      let h : HamInfo := ⟨a != 0, b != 0, c != 0, d != 0, e != 0⟩
+      let r := match route h with
+        | .individual => "individual" | .diagonal => "diagonal" | .quadratic => "quadratic"
+        | .diagCoulomb => "diagcoulomb" | .taylor => "taylor"
+      return s!"{r} {b2n (inplaceRefused h)} {(sitesTimeEvolve h).length}"
   | _ => throw s!"unknown command {name}"
 
 def handle (line : String) : String :=
